@@ -9,6 +9,7 @@ import (
 	"math/big"
 	"math/rand"
 	"reflect"
+	"sort"
 	"strings"
 
 	fpgo "github.com/TeaEntityLab/fpGo/v2"
@@ -374,6 +375,15 @@ func c02Main(args []string) error {
 		}
 		defer w.close()
 		n := 0
+		run := func(c c02Case) {
+			val, _, _, _ := c02Concretise(&c)
+			for i, m := range c02Justs(val) {
+				res, errk, got := c02Run(&c, m)
+				w.write(map[string]interface{}{"case": c, "ctor": []string{"Just", "JustGenerics"}[i], "res": res, "errk": errk, "got": got, "val": fmt.Sprint(val)})
+				n++
+			}
+		}
+		var strCases []c02Case
 		for _, f := range args[1:] {
 			if f == "--out" {
 				break
@@ -383,17 +393,25 @@ func c02Main(args []string) error {
 				if err := json.Unmarshal(b, &c); err != nil {
 					return err
 				}
-				val, _, _, _ := c02Concretise(&c)
-				for i, m := range c02Justs(val) {
-					res, errk, got := c02Run(&c, m)
-					w.write(map[string]interface{}{"case": c, "ctor": []string{"Just", "JustGenerics"}[i], "res": res, "errk": errk, "got": got, "val": fmt.Sprint(val)})
-					n++
+				run(c)
+				if c.Src == "string" {
+					strCases = append(strCases, c)
 				}
 				return nil
 			})
 			if err != nil {
 				return err
 			}
+		}
+		// a conversion depends on its own input only, not on what the process converted before: the string cases once more in two
+		// other orders (reversed; widest target first for every text), so that the same text meets the targets wide-to-narrow and back
+		for i := len(strCases) - 1; i >= 0; i-- {
+			run(strCases[i])
+		}
+		width := map[string]int{"uint64": 0, "int64": 0, "uintptr": 0, "uint": 1, "int": 1, "float64": 1, "uint32": 2, "int32": 2, "float32": 2, "uint16": 3, "int16": 3, "uint8": 4, "int8": 4, "bool": 5}
+		sort.SliceStable(strCases, func(a, b int) bool { return width[strCases[a].Tgt] < width[strCases[b].Tgt] })
+		for _, c := range strCases {
+			run(c)
 		}
 		fmt.Printf("{\"events\":%d}\n", n)
 		return nil
